@@ -13,6 +13,7 @@ import (
 	"github.com/ClickHouse/ch-go/proto"
 	"go.opentelemetry.io/otel/trace"
 
+	"verif/checks/seq/reg"
 	"verif/refcol"
 	"verif/refwire"
 	"verif/vk"
@@ -81,6 +82,68 @@ var inCols = []inCol{
 		c.Append(time.Unix(4294967295, 0))
 		return c
 	}, []any{u32(0), u32(1700000000), u32(4294967295)}},
+}
+
+// glueCols builds further input columns through the reflection glue: three boundary values
+// each, reference values = the glue's canonical form.
+func glueCols() []inCol {
+	ctors := []struct {
+		name string
+		mk   func() proto.Column
+	}{
+		{"i8", func() proto.Column { return new(proto.ColInt8) }},
+		{"i64", func() proto.Column { return new(proto.ColInt64) }},
+		{"u128", func() proto.Column { return new(proto.ColUInt128) }},
+		{"i256", func() proto.Column { return new(proto.ColInt256) }},
+		{"f64", func() proto.Column { return new(proto.ColFloat64) }},
+		{"b", func() proto.Column { return new(proto.ColBool) }},
+		{"uuid", func() proto.Column { return new(proto.ColUUID) }},
+		{"ip4", func() proto.Column { return new(proto.ColIPv4) }},
+		{"ip6", func() proto.Column { return new(proto.ColIPv6) }},
+		{"dt", func() proto.Column { return new(proto.ColDate) }},
+		{"dt32", func() proto.Column { return new(proto.ColDate32) }},
+		{"dt64", func() proto.Column { return new(proto.ColDateTime64).WithPrecision(3) }},
+		{"dec64", func() proto.Column { return new(proto.ColDecimal64) }},
+		{"fs8", func() proto.Column { return new(proto.ColFixedStr8) }},
+		{"en", func() proto.Column { return reg.Enum("Enum8('a' = 1, 'b' = 2)") }},
+		{"json", func() proto.Column { return new(proto.ColJSONStr) }},
+		{"pt", func() proto.Column { return new(proto.ColPoint) }},
+		{"nu32", func() proto.Column { return proto.NewColNullable[uint32](new(proto.ColUInt32)) }},
+		{"lcu16", func() proto.Column { return proto.NewLowCardinality[uint16](new(proto.ColUInt16)) }},
+		{"aas", func() proto.Column { return proto.NewArray[[]string](proto.NewArray[string](new(proto.ColStr))) }},
+		{"alc", func() proto.Column { return proto.NewArray[string](proto.NewLowCardinality[string](new(proto.ColStr))) }},
+		{"mas", func() proto.Column {
+			return proto.NewMap[string, []string](new(proto.ColStr), proto.NewArray[string](new(proto.ColStr)))
+		}},
+		{"tup", func() proto.Column { return proto.ColTuple{new(proto.ColStr), new(proto.ColUInt8)} }},
+		{"nen", func() proto.Column { return proto.NewColNullable[string](reg.Enum("Enum16('x' = 300, 'y' = -2)")) }},
+	}
+	var out []inCol
+	for _, ct := range ctors {
+		ct := ct
+		fill := func() (*reg.Col, []any) {
+			w, err := reg.Wrap(ct.mk(), ct.name)
+			if err != nil {
+				panic(err)
+			}
+			a := w.Alphabet()
+			var vals []any
+			for i := 0; i < 3; i++ {
+				v := a[(i+1)%len(a)]
+				w.Append(v)
+				vals = append(vals, w.Canon(v))
+			}
+			return w, vals
+		}
+		w, vals := fill()
+		out = append(out, inCol{ct.name, string(w.C.Type()), func() proto.ColInput { c, _ := fill(); return c.C }, vals})
+	}
+	return out
+}
+
+func init() {
+	inCols = append(inCols, glueCols()...)
+	q02Alph[10] = len(inCols) + 1
 }
 
 // q02 is a point of the query space: every field is an index into its alphabet (0 = base).
@@ -310,7 +373,7 @@ func body02(k q02) Body {
 
 // C02 — everything the client writes for a query is a well-formed packet sequence.
 func C02(c *vk.Ctx) {
-	c.Rule("queries with <= 2 fields deviating from a base query over per-field alphabets (query id given / generated / 300 bytes; body short / empty / 70 KiB / non-UTF-8; 0..2 connection settings; 0..2 query settings incl. an override and an empty value; 0..2 parameters; secret; query quota key; connection quota key (addendum); initial user; external data none / default table / named table with 2 columns; input of 1..3 columns over 8 column types; OpenTelemetry span context) x {Disabled, None, LZ4, LZ4HC, ZSTD} at the newest revision, and queries with <= 1 deviation x every revision of the threshold-neighbour set from 54420 up x {Disabled, LZ4}. Each case is one execution of the real Connect + Do (default schedule); the recorded client bytes are compared with the reference encoding (Query packet byte for byte; blocks by reference decoding incl. frame checksum). distinct_nontrivial = cases.")
+	c.Rule("queries with <= 2 fields deviating from a base query over per-field alphabets (query id given / generated / 300 bytes; body short / empty / 70 KiB / non-UTF-8; 0..2 connection settings; 0..2 query settings incl. an override and an empty value; 0..2 parameters; secret; query quota key; connection quota key (addendum); initial user; external data none / default table / named table with 2 columns; input of 1..3 columns over 32 column types (integers to 256 bits, floats, Bool, UUID, IPv4/6, dates, DateTime64, Decimal, FixedString, name-based enums that must adopt the server's definition, JSON, Point, Nullable, LowCardinality, nested arrays, Array(LowCardinality), Map(String, Array), Tuple); OpenTelemetry span context) x {Disabled, None, LZ4, LZ4HC, ZSTD} at the newest revision, and queries with <= 1 deviation x every revision of the threshold-neighbour set from 54420 up x {Disabled, LZ4}. Each case is one execution of the real Connect + Do (default schedule); the recorded client bytes are compared with the reference encoding (Query packet byte for byte; blocks by reference decoding incl. frame checksum). distinct_nontrivial = cases.")
 	run := func(k q02, group string) {
 		id := k.id()
 		if !c.Next(id) {
